@@ -714,19 +714,35 @@ impl ZiPatch {
             let base_files = crate::patch::recurse(base_directory);
             let new_files = crate::patch::recurse(new_directory);
 
-            // A set of files not present in base, but in new (aka added files)
+            // Files are compared by their path relative to the directory they were listed from.
+            let relative_to = |file: &PathBuf, root: &str| -> PathBuf {
+                file.strip_prefix(root).unwrap().to_path_buf()
+            };
+            let base_relative: Vec<PathBuf> = base_files
+                .iter()
+                .map(|item| relative_to(item, base_directory))
+                .collect();
+            let new_relative: Vec<PathBuf> = new_files
+                .iter()
+                .map(|item| relative_to(item, new_directory))
+                .collect();
+
+            // A set of files not present in base or with different contents, but in new (aka added files)
             let added_files: Vec<&PathBuf> = new_files
                 .iter()
                 .filter(|item| {
                     let metadata = fs::metadata(item).unwrap();
-                    !base_files.contains(item) && metadata.len() > 0 // TODO: we filter out zero byte files here, but does SqEx do that?
+                    let relative = relative_to(item, new_directory);
+                    let unchanged = base_relative.contains(&relative)
+                        && read(Path::new(base_directory).join(&relative)).ok() == read(item).ok();
+                    !unchanged && metadata.len() > 0 // TODO: we filter out zero byte files here, but does SqEx do that?
                 })
                 .collect();
 
             // A set of files not present in the new directory, that used to be in base (aka removedf iles)
             let removed_files: Vec<&PathBuf> = base_files
                 .iter()
-                .filter(|item| !new_files.contains(item))
+                .filter(|item| !new_relative.contains(&relative_to(item, base_directory)))
                 .collect();
 
             // Process added files
